@@ -90,17 +90,21 @@ class Run:
         return False
 
     # -- verdicts ---------------------------------------------------------
-    def match_known(self, signature: str) -> dict | None:
+    def match_known(self, signature: str, instance: str | None = None) -> dict | None:
         for k in self.known:
-            if k["signature"] == signature:
-                return k
-            if k.get("signature_prefix") and signature.startswith(k["signature_prefix"]):
+            if k.get("signature") == signature or (k.get("signature_prefix") and signature.startswith(k["signature_prefix"])):
+                # an entry that enumerates its failing inputs matches only those inputs
+                if "instances" in k and instance not in k["instances"]:
+                    continue
                 return k
         return None
 
-    def report(self, signature: str, case: dict, text: str) -> bool:
-        """Report a (confirmed) violation. Returns True if it is a known finding."""
-        k = self.match_known(signature)
+    def report(self, signature: str, case: dict, text: str, instance: str | None = None) -> bool:
+        """Report a (confirmed) violation. Returns True if it is a known finding.
+        `instance` identifies the concrete failing input for known entries that list theirs."""
+        k = self.match_known(signature, instance)
+        if k is None and instance is not None:
+            signature = signature + "@" + instance
         if k is not None:
             self.excluded_known[k["signature"] if "signature" in k else k["signature_prefix"]] += 1
             key = k.get("signature") or k.get("signature_prefix")
